@@ -15,7 +15,7 @@ from vlib import log
 
 PROP = "C05"
 QUICK_BASES = [2, 3, 7, 8, 10, 12, 16, 32, 36]
-FAMILIES = ("GenSmall", "GenBoundary", "GenPeriod", "GenMagnitude", "GenBig")
+FAMILIES = ("GenSmall", "GenBoundary", "GenPeriod", "GenMagnitude", "GenBig", "GenLong", "GenRun")
 
 
 def numeral_selftest(run):
@@ -23,17 +23,20 @@ def numeral_selftest(run):
     vlib.require_ok(r, "MC_Numeral")
     if '<<"NUMERAL_SELFTEST", TRUE, TRUE>>' not in r.stdout:
         raise vlib.ToolError("Numeral self-test did not report TRUE/TRUE")
-    run.note("numeral_selftest", "Numeral.tla reads 45 hand-checked numerals (all shapes, both readings of `e`) as expected; "
+    run.note("numeral_selftest", "Numeral.tla reads 50 hand-checked numerals (all shapes, both readings of `e`, fractions in the base) as expected; "
                                  "digit conversion agrees with BigNum in bases 2..36")
 
 
-def gen_cases(tag, bases, seed, smallmax, maxk, stride_cheap, stride_mid, stride_long, stride_neg, bigks, stride_big, workers=4):
+def gen_cases(tag, bases, seed, smallmax, maxk, stride_cheap, stride_mid, stride_long, stride_neg, bigks, stride_big,
+              longbases, longls, stride_longint, stride_longslow, runlens, workers=4):
     cfg = vlib.workfile("NumGen_%s.cfg" % tag)
     with open(cfg, "w") as f:
         f.write("SPECIFICATION Spec\nINVARIANT Emit\nCHECK_DEADLOCK FALSE\nCONSTANTS\n")
         f.write("  Bases = {%s}\n  Seed = %d\n  SmallMax = %d\n  MaxK = %d\n" % (", ".join(map(str, bases)), seed % 1000, smallmax, maxk))
         f.write("  StrideCheap = %d\n  StrideMid = %d\n  StrideLong = %d\n  StrideNeg = %d\n" % (stride_cheap, stride_mid, stride_long, stride_neg))
         f.write("  BigKs = {%s}\n  StrideBig = %d\n" % (", ".join(map(str, bigks)), stride_big))
+        f.write("  LongBases = {%s}\n  LongLs = {%s}\n  StrideLongInt = %d\n  StrideLongSlow = %d\n  RunLens = {%s}\n" % (
+            ", ".join(map(str, longbases)), ", ".join(map(str, longls)), stride_longint, stride_longslow, ", ".join(map(str, runlens))))
     r = vlib.tlc("MC_NumGen", cfg, workers=workers, timeout=3000, coverage=True, tag="gen" + tag, xmx="8g")
     vlib.require_ok(r, "MC_NumGen")
     for a in FAMILIES:
@@ -45,10 +48,26 @@ def gen_cases(tag, bases, seed, smallmax, maxk, stride_cheap, stride_mid, stride
 def jobs_of(cases, query_every=1):
     jobs = []
     for ci, c in enumerate(cases):
+        if c["f"] == "run":
+            continue
         for (mode, n) in sorted(map(tuple, c["modes"])):
             jobs.append({"p": c["p"], "q": c["q"], "base": c["base"], "mode": mode, "n": n, "fam": c["f"],
                          "query": (len(jobs) % query_every) == 0})
     return jobs
+
+
+def runs_of(cases):
+    """the Run family: run id -> its jobs in the order they are to be printed (steps by `pos`, modes in a fixed order)"""
+    runs = {}
+    for c in cases:
+        if c["f"] == "run":
+            runs.setdefault(tuple(c["run"]), []).append(c)
+    out = {}
+    for rid, steps in sorted(runs.items()):
+        steps.sort(key=lambda c: c["pos"])
+        out[rid] = [{"p": c["p"], "q": c["q"], "base": c["base"], "mode": mode, "n": n, "fam": "run", "query": True}
+                    for c in steps for (mode, n) in sorted(map(tuple, c["modes"]))]
+    return out
 
 
 def describe(res):
@@ -57,7 +76,20 @@ def describe(res):
 
 
 def cost_of(ev):
-    return sum(len(c.get("t", ())) ** 2 for c in ev["checks"]) + 400
+    """reading a numeral back costs about (digits + |exponent|)^2"""
+    def size(t):
+        k = len(t)
+        while k > 0 and 48 <= t[k - 1] <= 57:
+            k -= 1
+        digits = "".join(chr(c) for c in t[k:])
+        if k > 0 and t[k - 1] == 45:
+            k -= 1
+        if 1 < k < len(t) and t[k - 1] == 101 and 0 < len(digits) <= 7:
+            return len(t) + int(digits)
+        return len(t)
+    # bases 2, 4, 8, 16 fill the limbs of the specification's numbers directly; the others are converted by repeated multiplication
+    slow = 1 if ev.get("base") in (2, 4, 8, 16) else 8
+    return slow * sum(size(c.get("t", ())) ** 2 for c in ev["checks"]) + 400
 
 
 def judge_balanced(events, shards, tag, timeout=3600):
@@ -108,10 +140,53 @@ def decide(run, jobs, leg, shards, chunk=120000):
 def decide_chunk(run, jobs, leg, shards):
     t0 = time.time()
     res = numkit.run_num(jobs, shards=shards, tag="c05" + leg)
+    return judge_results(run, res, leg, shards, t0)
+
+
+def job_key(r):
+    d = describe(r)
+    return [d["p"], d["q"], d["base"], d["mode"], d["n"]]
+
+
+def decide_runs(run, runs, shards):
+    """every run in a worker process of its own, its numerals one after another in the run's order; each numeral is judged
+    by the same law as everywhere else.  A rejected numeral carries the steps printed before it (`after`) for the replay."""
+    import concurrent.futures as cf
+    t0 = time.time()
+    rids = list(runs)
+
+    def one(k):
+        return numkit.run_num(runs[rids[k]], shards=1, tag="c05run%d" % k)
+
+    with cf.ThreadPoolExecutor(max_workers=shards) as ex:
+        parts = list(ex.map(one, range(len(rids))))
+    res, extra = [], []
+    for rid, part in zip(rids, parts):
+        for i, r in enumerate(part):
+            res.append(r)
+            extra.append({"run": list(rid), "after": [job_key(x) for x in part[:i]]})
+    # The values of a run have at most a few hundred digits and short recurring blocks.  A formatter that is led astray by what
+    # it printed before emits hundreds of thousand-digit numerals, which cost the judge seconds each: numerals beyond 500
+    # characters are judged 40 at first, and the rest only if nothing has been rejected so far (nothing is ever passed unjudged).
+    big = [i for i, r in enumerate(res) if len(r.get("text", ())) > 500]
+    later = set(big[40:])
+    first = [i for i in range(len(res)) if i not in later]
+    before = len(run.violations) + sum(run.known_hits.values())
+    nunsup, _ = judge_results(run, [res[i] for i in first], "run", shards, t0, [extra[i] for i in first])
+    if later:
+        if len(run.violations) + sum(run.known_hits.values()) == before:
+            u, _ = judge_results(run, [res[i] for i in sorted(later)], "run2", shards, time.time(), [extra[i] for i in sorted(later)])
+            nunsup += u
+        else:
+            run.note("run_numerals_not_judged_after_rejections", len(later))
+    return nunsup, res
+
+
+def judge_results(run, res, leg, shards, t0, extra=None):
     t1 = time.time()
     events = [numkit.num_event(r) for r in res]
     verdicts, st = judge_balanced(events, shards, "c05j" + leg)
-    log("[C05] leg %s: %d numerals requests, rv-num %.1fs, judge %.1fs" % (leg, len(jobs), t1 - t0, time.time() - t1))
+    log("[C05] leg %s: %d numerals requests, rv-num %.1fs, judge %.1fs" % (leg, len(res), t1 - t0, time.time() - t1))
     run.cov["states"] += st["distinct"]
     run.cov["transitions"] += st["generated"]
     run.traces(len(events))
@@ -121,6 +196,8 @@ def decide_chunk(run, jobs, leg, shards):
         v = verdicts.get(i, set())
         case = describe(r)
         case["leg"] = leg
+        if extra:
+            case.update(extra[i])
         if "crash" in r:
             case["crash"] = r["crash"]
             run.violation(case, "a numeral denoting p/q", {k: r.get(k) for k in ("crash", "msg", "signal")}, "numeral")
@@ -155,12 +232,18 @@ def corrupt_selfcheck(run):
             obs(1000, 3, 16, "default", True, "14d.[5]...", "14d.[5]...", None),
             obs(1, 17, 10, "full", True, "0.[0588235294117647, period 16]...", "0.[0588235294117647, period 16]...", None),
             obs(5, 8, 10, "default", True, "0.625", "0.625", None),
-            obs(-1000, 3, 36, "sci", True, "-9.9ce1", "-9.9ce1", None)]
+            obs(-1000, 3, 36, "sci", True, "-9.9ce1", "-9.9ce1", None),
+            obs(1, 1000, 16, "default", False, "0.004189374", "1/3e8", "0.004189374"),
+            obs(255, 7, 16, "frac", True, "ff/7", "ff/7", None),
+            obs(255, 9, 8, "frac", True, "377/11", "377/11", None)]
     bad = [obs(1, 17, 10, "default", False, "0.05882353", "1/17", "0.05882353"),                  # last digit rounded up
            obs(1000, 3, 16, "default", True, "14d.6[5]...", "14d.6[5]...", None),                 # block one place too late
            obs(1, 17, 10, "full", True, "0.[0588235294117647, period 15]...", "0.[0588235294117647, period 15]...", None),
            obs(5, 8, 10, "default", False, "0.625", None, "0.625"),                               # exact numeral behind `approx.`
-           obs(-1000, 3, 36, "sci", True, "-9.9ce2", "-9.9ce2", None)]                            # exponent off by one
+           obs(-1000, 3, 36, "sci", True, "-9.9ce2", "-9.9ce2", None),                            # exponent off by one
+           obs(1, 1000, 16, "default", False, "0.004189374", "1/1000", "0.004189374"),            # decimal fraction in a hex reply
+           obs(255, 7, 16, "frac", True, "255/7", "255/7", None),                                 # decimal numerator in a hex reply
+           obs(255, 9, 8, "frac", True, "255/9", "255/9", None)]                                  # digit 9 in an octal reply
     evs = [numkit.num_event(r) for r in good + bad]
     verdicts, _ = evalkit.judge(evs, "Trace_Numeral", shards=1, tag="c05selfj", min_per_shard=1)
     for i in range(len(good)):
@@ -176,28 +259,39 @@ def run(tier, seed):
     thorough = tier == "thorough"
     run.cov["rule"] = ("TLC (MC_NumGen) enumerates p/q x base x digits modes: lowest-terms p/q up to SmallMax, (b^k+-1)/(b^j+-1) for k, j <= 12, "
                        "denominators of period 1..982 and 1000003, (a^k+-1)/(c^j+-1) of hundreds to thousands of bits, magnitudes across the 1e9/1e-9 notation switch, negatives by stride; default mode "
-                       "for every value, the other modes by seed-rotated strides. non-trivial = distinct (p, q, base, mode, N) other than a "
+                       "for every value, the other modes by seed-rotated strides; (m*b^L+s)/q with an integer part of more than 1000 digits in the base it is "
+                       "printed in, every digits mode; runs of ten 64..258-digit values printed one after another by one worker process in rotating bases "
+                       "(2, 7, 10, 16, 36), equal digit counts, each numeral judged on its own. non-trivial = distinct (p, q, base, mode, N) other than a "
                        "single-digit integer in default mode.")
     run.assumptions += ["harness trusted for: string <-> code points, num-bigint <-> base-4096 limbs, building the query text p/q -> mode base",
-                        "fractions (p/q and the integers of `-> frac`) are printed in decimal by Rink in every base: both the decimal reading "
-                        "and the reading in the base are admitted",
+                        "every numeral of a reply is read in the reply's base: the numerator and the denominator of a fraction and the "
+                        "integers of `-> frac` too (no decimal reading in another base; `1/1000` in a hexadecimal reply is 1/4096)",
                         "float-valued results are outside this check (their `approx.` marker describes the value, not the numeral)"]
     vlib.build_harness()
     numeral_selftest(run)
     shards = 14 if thorough else 8
     if thorough:
-        cases, r = gen_cases("c05", list(range(2, 37)), seed, 90, 12, 2, 12, 80, 3, [64, 300, 1000], 15, workers=6)
+        cases, r = gen_cases("c05", list(range(2, 37)), seed, 90, 12, 2, 12, 80, 3, [64, 300, 1000], 15,
+                             [2, 7, 10, 16, 36], [1020, 1200], 3, 36, [64, 65, 100, 129, 257], workers=6)
     else:
-        cases, r = gen_cases("c05", QUICK_BASES, seed, 40, 12, 6, 80, 600, 3, [64, 300], 20)
+        cases, r = gen_cases("c05", QUICK_BASES, seed, 40, 12, 6, 80, 600, 3, [64, 300], 20,
+                             [2, 10, 16], [1020], 9, 36, [64, 100])
     run.add_tlc(r, "MC_NumGen")
     jobs = jobs_of(cases, query_every=1 if thorough else 2)
+    runs = runs_of(cases)
+    if not any(c["f"] == "long" for c in cases) or not runs:
+        raise vlib.ToolError("vacuity gate: no case of the Long / Run family")
     long_jobs = [j for j in jobs if j["mode"] == "full" or (j["mode"] == "digits" and j["n"] >= 50)]
     short_jobs = [j for j in jobs if not (j["mode"] == "full" or (j["mode"] == "digits" and j["n"] >= 50))]
-    log("[C05] %d cases from TLC: %d short-mode numeral requests, %d long-mode" % (len(cases), len(short_jobs), len(long_jobs)))
+    log("[C05] %d cases from TLC: %d short-mode numeral requests, %d long-mode, %d runs of %d numerals in one worker each" % (
+        len(cases), len(short_jobs), len(long_jobs), len(runs), max(len(v) for v in runs.values())))
     u1, res1 = decide(run, short_jobs, "short", shards)
     u2, res2 = decide(run, long_jobs, "long", shards)
+    u3, res3 = decide_runs(run, runs, shards)
     longest = max(res2, key=lambda r: len(r.get("text", ())), default=None)
-    run.note("unsupported_numerals", u1 + u2)
+    run.note("unsupported_numerals", u1 + u2 + u3)
+    run.note("integer_parts_over_1000_digits", sum(1 for c in cases if c["f"] == "long"))
+    run.note("runs_in_one_worker", len(runs))
     for r in res1[:3] + res2[:2] + ([longest] if longest else []):
         if "text" in r:
             d = describe(r)
@@ -211,11 +305,14 @@ def replay(path, seed):
     body = json.load(open(path))
     c = body["case"]
     vlib.build_harness()
-    job = {"p": numkit.zjson(c["p"]), "q": numkit.limbs(c["q"]), "base": c["base"], "mode": c["mode"], "n": c.get("n", 0), "query": True}
-    res = numkit.run_num([job], shards=1, tag="c05r")
-    ev = numkit.num_event(res[0])
+    def job_of(k):
+        return {"p": numkit.zjson(k[0]), "q": numkit.limbs(k[1]), "base": k[2], "mode": k[3], "n": k[4], "query": True}
+    # a numeral of the Run family is printed after the earlier steps of its run, in the same worker process
+    jobs = [job_of(k) for k in c.get("after", [])] + [job_of([c["p"], c["q"], c["base"], c["mode"], c.get("n", 0)])]
+    res = numkit.run_num(jobs, shards=1, tag="c05r")
+    ev = numkit.num_event(res[-1])
     verdicts, _ = evalkit.judge([ev], "Trace_Numeral", shards=1, tag="c05rj", min_per_shard=1)
-    r = res[0]
+    r = res[-1]
     log("p/q = %s/%s base %s mode %s %s\nobserved: %s\nverdict: %s" % (
         c["p"], c["q"], c["base"], c["mode"], c.get("n", 0),
         {k: (numkit.txt(r[k]) if isinstance(r.get(k), list) else r.get(k)) for k in ("is_exact", "text", "pe", "pa", "qs", "qe", "qa", "crash")},
